@@ -549,7 +549,7 @@ def run_shapes(res, judged):
 
 def run(ctx):
     res = {"evaluations": 0, "nontrivial": set(), "violations": [], "disagreements": [], "distribution": {},
-           "streams": 8, "notes": []}
+           "streams": 9, "notes": []}
     dist = res["distribution"]
     rng = ctx.rng
     # E: marker boundary cases (sniffer-level, alarm level)
@@ -591,6 +591,9 @@ def run(ctx):
     c20_nodes.run_nodes(ctx, res, sets)
     # H: "that reader reads the document" on the read-back domain (request 2004)
     c20_nodes.run_read(ctx, res, sets)
+    # I: non-default writer options (force= / lang=) and multi-language sets with an empty language
+    import c20_options
+    c20_options.run_options(ctx, res)
     # F: writer outputs as instances of the own-output theorems
     run_shapes(res, judged)
     # B: complete documents + truncations
